@@ -244,33 +244,20 @@ Proof.
   rewrite E in E'. inversion E'; subst. exact R.
 Qed.
 
-Lemma organize_respects_deps_proof sched multi trigger l t :
+(* without the MultiFetch stage the nodes of the tree are the planner's fetches *)
+Lemma organize_respects_deps_proof sched trigger l t :
   acyclic l -> unique_ids l ->
-  organize sched multi trigger l = Done t ->
-  plan_respects t l /\ exactly_once t l.
+  organize sched false trigger l = Done t ->
+  Permutation (tree_fetches t) l /\ plan_respects t l /\ exactly_once t l.
 Proof.
   intros Hac Hu. unfold organize. destruct sched.
-  - destruct multi.
-    + destruct (organize_in_waves l) as [w|] eqn:W; [|discriminate].
-      destruct (organize_in_waves_ok l w Hac Hu W) as [Pw _].
-      pose proof (perm_acyclic _ _ (Permutation_sym Pw) Hac) as Hac'.
-      pose proof (perm_unique_ids _ _ (Permutation_sym Pw) Hu) as Hu'.
-      destruct (process_fetch_tree trigger (tree_fetches w)) as [e|t'] eqn:E.
-      * destruct e; try discriminate; unfold of_option;
-          destruct (organize_in_waves (tree_fetches w)) as [t'|] eqn:W2; try discriminate;
-          intros H; inversion H; subst;
-          destruct (organize_in_waves_ok _ _ Hac' Hu' W2) as [_ [A B]];
-          (split; [eapply plan_respects_perm; [exact Pw | exact A] | eapply exactly_once_perm; [exact Pw | exact B]]).
-      * intros H. inversion H; subst. destruct (process_fetch_tree_ok _ _ _ E) as [_ [A B]].
-        split; [eapply plan_respects_perm; [exact Pw | exact A] | eapply exactly_once_perm; [exact Pw | exact B]].
-    + destruct (process_fetch_tree trigger l) as [e|t'] eqn:E.
-      * destruct e; try discriminate; unfold of_option;
-          destruct (organize_in_waves l) as [t'|] eqn:W2; try discriminate;
-          intros H; inversion H; subst;
-          destruct (organize_in_waves_ok _ _ Hac Hu W2) as [_ [A B]]; split; assumption.
-      * intros H. inversion H; subst. destruct (process_fetch_tree_ok _ _ _ E) as [_ [A B]]. split; assumption.
-  - unfold of_option. destruct (organize_in_waves l) as [t'|] eqn:W2; [|discriminate].
-    intros H; inversion H; subst. destruct (organize_in_waves_ok _ _ Hac Hu W2) as [_ [A B]]. split; assumption.
+  - destruct (process_fetch_tree trigger l) as [e|t'] eqn:E.
+    + destruct e; try discriminate; unfold of_option;
+        destruct (organize_in_waves l) as [t'|] eqn:W2; try discriminate;
+        intros H; inversion H; subst; apply (organize_in_waves_ok _ _ Hac Hu W2).
+    + intros H. inversion H; subst. apply (process_fetch_tree_ok _ _ _ E).
+  - destruct (organize_in_waves l) as [t'|] eqn:W2; [|discriminate].
+    intros H; inversion H; subst. apply (organize_in_waves_ok _ _ Hac Hu W2).
 Qed.
 
 (* with the scheduler off the model never runs out of fuel *)
@@ -278,5 +265,5 @@ Lemma organize_waves_total multi trigger l :
   acyclic l -> unique_ids l -> exists t, organize false multi trigger l = Done t.
 Proof.
   intros Hac Hu. destruct (waves_respect_deps_proof l Hac Hu) as [t [E _]].
-  exists t. unfold organize. rewrite E. reflexivity.
+  unfold organize. rewrite E. eexists. reflexivity.
 Qed.
